@@ -10,6 +10,7 @@ import shutil
 import time
 
 import common as C
+import b3
 import jbkdec
 import logical as L
 
@@ -251,6 +252,36 @@ def gen_cases(fm, rng, tier, prop, stride=1):
             add({"kind": "zero", "pos": a, "len": ln}, range(a, min(a + ln, n)), model=False)
         else:
             add({"kind": "fill", "pos": a, "len": ln, "mask": rng.randrange(1, 256)}, range(a, min(a + ln, n)), model=False)
+    if prop == "C04":
+        # an alteration that keeps the block's own CRC right (the CRC-32C of the altered block is recomputed, as a tool
+        # rewriting a block would do): the block check passes, only the pack's hash can tell - every byte of the
+        # pack-info blocks (all of the hashed part, a sample of the exempt location), a sample of every other block
+        for pk in jbkdec.all_packs(fm.dec):
+            for b in pk["blocks"]:
+                if b["kind"] == "NestedPack" or b["end"] - (b["begin"] + b["size"]) != 4 or b["size"] > 6000 or b["end"] > n:
+                    continue
+                if b["kind"] == "Check":
+                    # the check info *is* the checksum, it is not covered by it: with its own CRC repaired, a changed kind
+                    # byte (blake3 -> none) turns the check off, which the property does not exclude (DESIGN 11.8)
+                    continue
+                if b["kind"] == "PackInfo":
+                    offs = list(range(0, 40)) + [60, 252 - 1]
+                elif b["size"] == 60:       # a pack header or its copy at the tail
+                    offs = list(range(0, 60, 1 if tier != "quick" else 2)) + [10, 11]
+                else:
+                    per = 12 if tier == "quick" else 200
+                    offs = sorted(set(list(range(0, b["size"], max(1, b["size"] // per))) + [b["size"] - 1]))
+                for off in offs:
+                    if off < 0 or off >= b["size"]:
+                        continue
+                    pos = b["begin"] + off
+                    m = masks[pos % 3]
+                    blk = bytearray(fm.data[b["begin"]:b["begin"] + b["size"]])
+                    blk[off] ^= m
+                    crc = b3.crc32c_jbk(bytes(blk))
+                    crc = crc if isinstance(crc, (bytes, bytearray)) else int(crc).to_bytes(4, "big")
+                    extra = [[b["begin"] + b["size"] + i, crc[i]] for i in range(4)]
+                    add({"kind": "xor", "pos": pos, "mask": m, "extra": extra, "crc_repaired": True, "block_off": off}, [pos] + [e[0] for e in extra], model=False)
     if prop == "C06":
         for t in range(0, n, 1 if tier == "thorough" or n < 2500 else 2):
             add({"kind": "trunc", "len": t}, [], model=True, trunc=fm.trunc_order(t))
@@ -412,6 +443,10 @@ def run(prop, tier):
                     if c_.get("entry_window"):
                         sc["entry_window"] = c_["entry_window"]
                         sc["max_content"] = 20
+                    if c_["damage"].get("crc_repaired"):
+                        # only the checks are asked for: metadata that is wrong and carries a right CRC makes the reader
+                        # itself panic in several places (DESIGN 11.8); C04 judges the checks
+                        sc["indexes"], sc["packs"] = [], []
                     if prop == "C06" and comp != "none" and any(p[0] == "c.data" for p in c_["parts"]):
                         sc["threads"] = 6       # several readers waiting on the same failing decoder
                     if prop == "C06":
@@ -439,7 +474,8 @@ def run(prop, tier):
                         r1 = C.run_scenarios(binaries[profile], [s], "I_alone", timeout=60, before_round=restore, env_extra={"VERIF_SCN_TIMEOUT": "40"})
                         restore()
                         runs[s["id"]] = r1.get(s["id"], {"events": [], "status": "crash:notrun"})
-                        confirmed_bad += runs[s["id"]]["status"] != "ok"
+                        # (a crash on metadata that is wrong under a right CRC is not what C04 judges and does not end the sweep)
+                        confirmed_bad += runs[s["id"]]["status"] != "ok" and not case_index[s["id"]]["damage"].get("crc_repaired")
                     scns = [s for s in scns if runs.get(s["id"], {}).get("status") != "skipped"]
                     for s in scns:
                         cc = case_index[s["id"]]
@@ -461,7 +497,7 @@ def run(prop, tier):
         where = "+".join("%s.%s" % tuple(p) for p in cc["parts"][:2]) or dm["kind"]
         if prop == "C06":
             return "%s %s site=%s kind=%s at=%s profile=%s" % (ev["open"] if ev["open"] != "ok" else "item", "crash", ev["site"], dm["kind"], where, cc["profile"])
-        return "kind=%s at=%s comp=%s mode=%s file=%s open=%s check=%s diffs=%s" % (dm["kind"], where, cc["world"][0], cc["world"][1], cc["world"][2],
+        return "kind=%s at=%s comp=%s mode=%s file=%s open=%s check=%s diffs=%s" % (dm["kind"] + ("+crc off=%d" % dm.get("block_off", -1) if dm.get("crc_repaired") else ""), where, cc["world"][0], cc["world"][1], cc["world"][2],
                                                                                      ev["open"], ev["check"], json.dumps(cc.get("diffs"))[:200])
     validate_cases(rep, prop, events, case_index, sig)
     rep.cov["traces_validated_against_impl"] = len(events)
@@ -485,6 +521,20 @@ def validate_cases(rep, prop, events, case_index, sig):
     """trace validation; rejected cases are reported (deduplicated by signature) and removed, until accepted"""
     evs = list(events)
     seen = {}
+    # cases listed in known_findings.json are counted (KNOWN-FINDING line) and taken out before validation: they must not use
+    # up the rounds in which other rejections are found
+    if rep.known:
+        import re as _re
+        keep = []
+        for e in evs:
+            cc = case_index.get(e.get("scn")) or {}
+            if cc.get("damage", {}).get("crc_repaired") and e.get("check") == "true":
+                s_ = "%s %s" % (prop, sig({"id": e["scn"]}))
+                if any(_re.search(k_["signature"], s_) for k_ in rep.known):
+                    rep.violation(s_, {})
+                    continue
+            keep.append(e)
+        evs = keep
     for rnd in range(400):
         tv = C.validate_trace("IntegrityTrace", trace_cfg(prop), "IntegrityTrace_%s_%d" % (prop, rnd % 3), evs, timeout=1800)
         if rnd == 0:
